@@ -984,9 +984,18 @@ impl<'a> Renderer<'a> {
                         let cand = self.db.tables[sql.len() % self.db.tables.len()].name.clone();
                         if !self.ctes.iter().any(|(n, _)| *n == cand) {
                             // does the body read its namesake?
-                            let reads_it = sql.split(|c: char| !(c.is_ascii_alphanumeric() || c == '_')).any(|tok| tok == cand);
+                            let mentions = |text: &str| text.split(|c: char| !(c.is_ascii_alphanumeric() || c == '_')).any(|tok| tok == cand);
+                            let reads_it = mentions(&sql);
+                            // an earlier CTE of the same WITH that reads the base table of that name
+                            let earlier_reads_it = parts.iter().any(|p: &String| mentions(p));
                             name = cand;
-                            self.class(if reads_it { "cte_named_like_table" } else { "cte_named_like_other_table" });
+                            self.class(if reads_it {
+                                "cte_named_like_table"
+                            } else if earlier_reads_it {
+                                "cte_named_like_table_read_earlier"
+                            } else {
+                                "cte_named_like_other_table"
+                            });
                         }
                     }
                     let sc: Scope = info
